@@ -216,6 +216,8 @@ def compare(case, got, exp, mode):
 
 
 def classify(case, mode, bad, got, exp):
+    if case.get('kind') == 'prop' and case['ham']['cls'] == 'sparse' and c01.sparse_normal_orders_to_zero(case):
+        return 'F-C01-empty-sparse-is-identity'
     return None
 
 
@@ -252,5 +254,6 @@ RULE = ('Hermitian restricted / SSO Hamiltonians with |t|*L1(H) graded over {1e-
         'expansion limits {2 .. 60}, Taylor and Chebyshev (enclosing and tight spectral bounds): raise iff the control-flow '
         'model says so (cases within 1e-3 of the threshold excluded and counted), returned state = exact partial sum, and '
         'within 4*acc + exp(x)*1e-12 of exp(-iHt)psi; exact routes at |t| up to 7e4 and coefficients up to 1e6')
-NOT_PROVED = ['the analytic accuracy claim (tail of the series after the stopping order) is checked numerically against the '
-              'exact oracle; only converge-or-raise of the control flow is a Coq theorem']
+NOT_PROVED = ['the scalar remainder bound of the series is a Coq theorem (C16_taylor_tail_bound); that ||H^k psi|| <= L1^k ||psi|| '
+              '(each operator string is a partial isometry) and the Bessel tail of the Chebyshev series are not; the accuracy '
+              'claim is checked numerically against the exact oracle']
